@@ -249,8 +249,8 @@ Section Flat.
   Hypothesis H_st : st = StEnc \/ st = StSep.
   Hypothesis H_fmt : parse_format (style_fmt st) = (f, code) /\ next_fcn code = Some fam.
   Hypothesis H_pr : forall i, print_ditem st i = pr i.
-  Hypothesis H_wfo : forall n, wf_name st (aopt a) n = true -> wfopt n.
-  Hypothesis H_wfs : forall n, wf_name st (asect a) n = true -> wfsec n.
+  Hypothesis H_wfo : forall n, wf_name st ROpt (araw a) (aopt a) n = true -> wfopt n.
+  Hypothesis H_wfs : forall n, wf_name st RSec (araw a) (asect a) n = true -> wfsec n.
 
   Lemma wf_dopt_of depth i : is_opt (strip i) = true -> wf_item st a depth (strip i) = true -> wf_dopt i.
   Proof.
